@@ -1550,8 +1550,11 @@ Proof.
   assert (Hint : raw_intty T (int_prefix i ++ w) = None).
   { unfold raw_intty, int_prefix. destruct (it_unsigned i).
     - rewrite strip_prefix_app, Hnone. reflexivity.
-    - cbn [app]. rewrite (ok_uprefix T Hok). destruct (kw_shape _ (kwok_int T Hok)) as [k0 [kr [Ek _]]]. pose proof (ok_uchar T Hok) as Huc.
-      rewrite Ek in *. cbn [head_is] in Huc. cbn [app strip_prefix]. rewrite Huc. rewrite <- Ek. rewrite strip_prefix_app, Hnone. reflexivity. }
+    - cbn [app]. rewrite (ok_uprefix T Hok).
+      assert (Hno : strip_prefix ([fsi_unsigned_char T] ++ int_kw T) (int_kw T ++ w) = None).
+      { destruct (kw_shape _ (kwok_int T Hok)) as [k0 [kr [Ek _]]]. pose proof (ok_uchar T Hok) as Huc.
+        rewrite Ek in *. cbn [head_is] in Huc. cbn [app strip_prefix]. rewrite Huc. reflexivity. }
+      rewrite Hno, strip_prefix_app, Hnone. reflexivity. }
   assert (Hhead : exists c, head_is c (int_prefix i ++ w) = true /\ is_lower c = true).
   { unfold int_prefix. destruct (it_unsigned i).
     - rewrite (ok_uprefix T Hok). exists (fsi_unsigned_char T). cbn [app head_is]. rewrite Z.eqb_refl. split; [reflexivity|apply (ok_uchar_lower T Hok)].
